@@ -341,13 +341,17 @@ func normalizeToken(in string) string {
 	// are not exact match on the token.
 	// Normalizing URLs from https to http is an example of a fix applied
 	// here.
-	// Removing an "s" can bring the next one up ("httpss"), so repeat until
-	// nothing is left to rewrite: tokenizing the result again must not change it.
-	for strings.Contains(in, "https") {
-		in = strings.ReplaceAll(in, "https", "http")
+	// Removing an "s" can bring the next one up ("httpss"), so every "s" that
+	// follows the scheme is removed: tokenizing the result again must not change
+	// it. This is done in one pass, so that a word of n letters costs O(n).
+	if !strings.Contains(in, "https") {
+		return in
 	}
-	return in
+	return secureScheme.ReplaceAllString(in, "http")
 }
+
+// secureScheme matches the https scheme and any further "s" behind it.
+var secureScheme = regexp.MustCompile("https+")
 
 func flushBuf(pos int, obuf []byte, normalizeWord bool, ld *dictionary) tokenID {
 	// clean up the contents of the rune buffer
